@@ -5,7 +5,7 @@ import random, itertools, collections
 PID = 'C11'
 HEADER = []
 T0 = 2000000000
-RULE = ('net-chain / net-tree-global families (op rt_net): COMPLETE multi-hop runs of one event on the real code - pure chains of depth 2-14 (every target zone, originators above/inside/below the target) and zone trees (depth <= 5, <= 4 children per zone, forests) with a global-zone target, 1-2 endpoints per zone, random names; link sets: all directly related pairs / a few missing / a random half, plus links between unrelated endpoints; delivery schedule fifo / lifo / seeded random; at every node the real JsonRpcConnection::MessageHandler and either the verif::Relay handler (CanAccessObject test + SyncRelayMessage) or, for host targets, the REAL event::SetNextCheck handler chain through the asynchronous relay queue; checked by the extracted network oracle (nobody twice, fewer deliveries than endpoints, complete under the premise). activation-order family: chains of depth 5-12 with side branches (and random trees), Zone::OnAllConfigLoaded re-run for all zones top-down / bottom-up / in random order, ancestor chains read back and relay steps routed over them; random zone trees (depth 1-4, 1-2 endpoints per zone, shuffled endpoint names, 0-2 global zones) x local identity x '
+RULE = ('net-chain / net-tree / net-tree-global families (op rt_net): COMPLETE multi-hop runs of one event on the real code - pure chains of depth 2-14 (every target zone, originators above/inside/below the target) and zone trees (depth <= 5, <= 4 children per zone, forests, 1-2 global zones) with a non-global target anywhere (originators on the line, below it, in side branches) or a global-zone target, 1-2 endpoints per zone, random names; link sets: all directly related pairs / a few missing / a random half, plus links between unrelated endpoints; delivery schedule fifo / lifo / seeded random; at every node the real JsonRpcConnection::MessageHandler and either the verif::Relay handler (CanAccessObject test + SyncRelayMessage) or, for host targets, the REAL event::SetNextCheck handler chain through the asynchronous relay queue; checked by the extracted network oracle (nobody twice, fewer deliveries than endpoints, complete under the premise). activation-order family: chains of depth 5-12 with side branches (and random trees), Zone::OnAllConfigLoaded re-run for all zones top-down / bottom-up / in random order, ancestor chains read back and relay steps routed over them; random zone trees (depth 1-4, 1-2 endpoints per zone, shuffled endpoint names, 0-2 global zones) x local identity x '
         'connectivity row (none/all/related/random, optional second older connection) x origin (local, received from a connected '
         'peer through the real JsonRpcConnection::MessageHandler with every claimed originZone, hand-made MessageOrigin, anonymous client) '
         'x target (Host in any zone, the Zone object itself, CheckCommand in a global zone, no security object) x log flag; plus a '
@@ -281,12 +281,26 @@ def net_tree_case(rnd):
     t = Topo([tuple(z) for z in zones])
     lines = ['now %d' % (T0 + rnd.randrange(0, 100000)), t.line()]
     kinds = []
+    fam = 'net-tree-global'
+    nonglobal = rnd.random() < 0.5
+    if nonglobal:
+        fam = 'net-tree'
     for _ in range(rnd.randint(2, 4)):
         links, kind = net_links(rnd, t)
         kinds.append(kind)
-        s = rnd.choice(t.zones[0][2]) if rnd.random() < 0.5 else rnd.choice(t.eps)
-        lines.append(net_line(rnd, s, nz + rnd.randrange(ng), links, 'relay'))
-    return {'lines': lines, 'tags': {'family': 'net-tree-global', 'links': kinds[0]}}
+        if nonglobal:
+            # a non-global target anywhere in the tree (deep leaves preferred); originators on the target's line, below it
+            # and in side branches; 2/3 of the runs through the real SetNextCheck handler chain
+            tz = max(rnd.randrange(nz), rnd.randrange(nz))
+            line = [tz]
+            while t.zones[line[-1]][0] is not None:
+                line.append(t.zones[line[-1]][0])
+            s = rnd.choice(t.zones[rnd.choice(line)][2]) if rnd.random() < 0.7 else rnd.choice(t.eps)
+            lines.append(net_line(rnd, s, tz, links, rnd.choice(('relay', 'nextcheck', 'nextcheck'))))
+        else:
+            s = rnd.choice(t.zones[0][2]) if rnd.random() < 0.5 else rnd.choice(t.eps)
+            lines.append(net_line(rnd, s, nz + rnd.randrange(ng), links, 'relay'))
+    return {'lines': lines, 'tags': {'family': fam, 'links': kinds[0]}}
 
 
 def generate(seed, tier):
@@ -310,7 +324,7 @@ def generate(seed, tier):
         cases.append({'lines': lines, 'tags': {'family': 'random-tree'}})
     nnet = {'quick': 300, 'thorough': 3000, 'search': 800}.get(tier, 300)
     for i in range(nnet):
-        cases.append(net_chain_case(rnd) if rnd.random() < 0.55 else net_tree_case(rnd))
+        cases.append(net_chain_case(rnd) if rnd.random() < 0.4 else net_tree_case(rnd))
     perm = rnd.sample(range(1, 40), 6)
     fam = chain_family(perm)
     if tier == 'quick':
